@@ -27,7 +27,10 @@ def _find_prop():
     raise LookupError(PARAM)
 
 
-PROP = _find_prop()
+try:
+    PROP = _find_prop()
+except LookupError:  # (attr_joint does not use it)
+    PROP = None
 
 
 def _get(e):
@@ -91,3 +94,54 @@ def text_content_arg(s: str) -> bool:
     li = ListItem(s)
     again = Element.from_tag(deepcopy(li._Element__element))
     return done(li.text_content == s and again.text_content == s and type(again) is ListItem)
+
+
+# ---- all constructor arguments together --------------------------------------------------------
+import inspect  # noqa: E402
+
+
+def _joint_params():
+    """(str PropDef parameters, element-typed parameters) of CLS.__init__"""
+    props = {}
+    for k in reversed(CLS.__mro__):
+        for p in getattr(k, "_properties", ()):
+            props[p.name] = p
+    strs, elems = [], []
+    for pname, par in inspect.signature(CLS.__init__).parameters.items():
+        ann = str(par.annotation)
+        if pname in props and ann in ("str", "str | None"):
+            strs.append(pname)
+        elif "Element" in ann and pname in ("text_or_element", "list_content"):  # a content argument: any element will do
+            elems.append(pname)
+    return strs, elems
+
+
+JOINT_STR, JOINT_ELEM = _joint_params()
+SKIP_JOINT = set(eval(os.environ.get("VERIF_SKIP", "[]")))
+
+
+def attr_joint(s: str, with_body: bool) -> bool:
+    """
+    pre: 1 <= len(s) <= 2 and all(32 < ord(c) < 127 for c in s)
+    post: _
+    """
+    # every string argument given TOGETHER (each its own value s + letter), with or without an element
+    # as body argument: each property still gives its own argument, right away and after re-parsing
+    from odfdo.paragraph import Paragraph
+    names = [p for p in JOINT_STR if p not in SKIP_JOINT]
+    kw = {p: s + chr(97 + i) for i, p in enumerate(names)}
+    if with_body:
+        for p in JOINT_ELEM:
+            kw[p] = Paragraph("body")
+    kw.update(EXTRA)
+    e = CLS(**kw)
+    again = Element.from_tag(deepcopy(e._Element__element))
+    ok = type(again) is type(e)
+    for i, p in enumerate(names):
+        prop = None
+        for k in CLS.__mro__:
+            if isinstance(k.__dict__.get(p), property):
+                prop = k.__dict__[p]
+                break
+        ok = ok and prop.fget(e) == s + chr(97 + i) and prop.fget(again) == s + chr(97 + i)
+    return done(ok)
